@@ -1,6 +1,6 @@
 (* C13 - the rolling file appender as an interleaving transition system: any number of goroutines inside
    RollingFileAppender.Write / rotate (plugin_appender.go), every atomic load / store / CAS / swap a separate step, the
-   clock advancing at any moment. File creation succeeds here (create faults are C19's sequential model).
+   clock advancing at any moment. File creation may fail at any rotation (cs_create_fail: C19's fault, under every interleaving).
    Time is counted in rotation intervals (Rotation.Time): nowTime = the clock value read.
    Ghost state (not in the code) names rotations: a rotation is identified by the order of its successful CAS; it is
    `complete` once it has stored the new current file. *)
@@ -76,6 +76,8 @@ Inductive cstep : cst -> cst -> Prop :=
     cstep s {| c_clk := c_clk s; c_curr := c_curr s; c_file := c_file s; c_old := c_old s; c_nfiles := S (c_nfiles s); c_fname := updf (c_fname s) (c_nfiles s) now;
                c_fopen := updf (c_fopen s) (c_nfiles s) true; c_fdata := c_fdata s; c_thr := updf (c_thr s) t (RCreated id now (c_nfiles s)); c_seq := c_seq s; c_lost := c_lost s;
                c_started := c_started s; c_done := c_done s; c_movers := c_movers s; c_storers := c_storers s; c_closer := c_closer s; c_old_by := c_old_by s |}
+| cs_create_fail s t id now : c_thr s t = RClosedOld id now ->      (* createFile returned an error: rotate() reports it and returns *)
+    cstep s (set_thr s t RToWrite)
 | cs_load_file s t id now f : c_thr s t = RCreated id now f ->
     cstep s {| c_clk := c_clk s; c_curr := c_curr s; c_file := c_file s; c_old := c_old s; c_nfiles := c_nfiles s; c_fname := c_fname s;
                c_fopen := c_fopen s; c_fdata := c_fdata s; c_thr := updf (c_thr s) t (RLoadedFile id now f (c_file s)); c_seq := c_seq s; c_lost := c_lost s;
@@ -125,7 +127,7 @@ Definition fresh_of (p : rpc) : option nat :=
   match p with RCreated _ _ f | RLoadedFile _ _ f _ | RStoredOld _ _ f => Some f | _ => None end.
 
 (* ---- the same steps as a function: what goroutine t does next is determined by the state ---- *)
-Inductive act := ATick (d : Z) | AStep (t : nat).
+Inductive act := ATick (d : Z) | AStep (t : nat) | AFail (t : nat)  (* goroutine t is at createFile and the call fails *).
 
 Definition with_thr_curr (s : cst) (t : nat) (p : rpc) (curr : Z) : cst :=
   {| c_clk := c_clk s; c_curr := curr; c_file := c_file s; c_old := c_old s; c_nfiles := c_nfiles s; c_fname := c_fname s;
@@ -188,6 +190,11 @@ Definition exec (s : cst) (a : act) : option cst :=
                     c_fopen := c_fopen s; c_fdata := c_fdata s; c_thr := updf (c_thr s) t RIdle;
                     c_seq := updf (c_seq s) t (S (c_seq s t)); c_lost := c_lost s ++ [(t, c_seq s t)];
                     c_started := c_started s; c_done := c_done s; c_movers := c_movers s; c_storers := c_storers s; c_closer := c_closer s; c_old_by := c_old_by s |}
+      end
+  | AFail t =>
+      match c_thr s t with
+      | RClosedOld _ _ => Some (set_thr s t RToWrite)
+      | _ => None
       end
   end.
 
